@@ -106,7 +106,7 @@ def linear_method(it, pt, lk, uk, has_den, vkind):
     H.check("C07:only-invalid-internal-values-are-rejected", spec_valid)
     exact = S.linear(offset, factor, den, x)
     if pt in S.INT_TYPES:
-        H.check("C07:integer-physical-value-is-the-nearest-integer-of-the-exact-formula", S.is_nearest_integer(y, exact))
+        H.check("C07,C03:integer-physical-value-is-the-nearest-integer-of-the-exact-formula", S.is_nearest_integer(y, exact))
     else:
         H.check("C07:physical-value-is-the-exact-formula", y == exact)
     # injective conversions: the image is declared valid and converts back.  Premise (from the property): real
@@ -312,7 +312,7 @@ def _ratfunc_family(tier, seed):
     return out
 
 
-@harness(props=["C07", "C05"], strength="B", family=_ratfunc_family,
+@harness(props=["C07", "C05", "C03"], strength="B", family=_ratfunc_family,
          bound="numerator polynomials with 1..3 coefficients, denominator polynomials with 0..2 coefficients (loops "
          "over the coefficient lists unrolled); coefficients, limits and values symbolic",
          functions=[RatFuncCompuMethod.__post_init__, RatFuncCompuMethod.convert_internal_to_physical,
@@ -365,9 +365,9 @@ def rat_func_method(it, pt, nnum, nden, vkind):
     H.check("C07:only-invalid-internal-values-or-poles-are-rejected", spec_valid)
     H.assume(q != 0)
     if pt in S.INT_TYPES:
-        H.check("C07:integer-physical-value-is-the-nearest-integer-of-the-exact-formula", S.is_nearest_integer(y, p / q))
+        H.check("C07,C03:integer-physical-value-is-the-nearest-integer-of-the-exact-formula", S.is_nearest_integer(y, p / q))
     else:
-        H.check("C07:physical-value-is-the-exact-rational-function", y == p / q)
+        H.check("C07,C03:physical-value-is-the-exact-rational-function", y == p / q)
 
 
 # ------------------------------------------------------------------------------------------------- IDENTICAL, TEXTTABLE
@@ -484,13 +484,13 @@ NUMBER_TEXTS = {
 }
 
 
-@harness(props=["C07"], strength="E", family=lambda t, s: [{"dt": dt} for dt in NUMBER_TEXTS],
+@harness(props=["C07", "C03"], strength="E", family=lambda t, s: [{"dt": dt} for dt in NUMBER_TEXTS],
          functions=[DataType.from_string, DataType.make_from], covers=["done"], crosscheck=False)
 def number_texts_denote_their_value(dt):
     """DataType.from_string / make_from of a number text is the number the text denotes"""
     for text in NUMBER_TEXTS[dt]:
         want = float(text) if dt in ("A_FLOAT32", "A_FLOAT64") else (int(text, 0) if "." not in text else int(float(text)))
-        H.check("C07:parsed-number-is-the-number-the-text-denotes",
+        H.check("C07,C03:parsed-number-is-the-number-the-text-denotes",
                 H.And(DataType[dt].from_string(text) == want, DataType[dt].make_from(text) == want))
     lim = Limit(value_raw="0.1", value_type=DataType[dt], interval_type=IntervalType.CLOSED) \
         if dt in ("A_FLOAT32", "A_FLOAT64") else None
